@@ -1,5 +1,6 @@
 import Driver.Util
 import MlModel.Model.PipeLib
+import MlModel.Model.PipeFnless
 open Lean MlModel MlModel.Iter MlModel.Pipe
 namespace Driver.Pipe
 
@@ -179,13 +180,22 @@ def selfAloneB (op : Op) : Bool :=
   | k :: _ :: _ => !k.isSelf
   | _ => true
 
+/-- a builder call without a function and without batch sizes: `select`, `apply` / `assign` with `fn=None` -/
+def fnlessSpec : Build.Spec → Bool
+  | .select _ _ batch => batch == 0
+  | .apply fn _ _ _ fnBatch batch => fn.isNone && fnBatch == 0 && batch == 0
+  | .assign _ fn _ _ fnBatch batch => fn.isNone && fnBatch == 0 && batch == 0
+  | _ => false
+
 /-- `{"model":"pipe","specs":[..],"src":{..},"ignore":bool}` → the builder's verdict and, if it
 accepts, the implementation model's run; `ref_*`: the reference interpreter's run when no operator
 has batch sizes; `refb_*`: the reference for chains with batched `apply` / `select` / `batch`
 operators (`Ref.chainEventsG`) and whether the decidable side conditions of
 `C08_refines_batched_partial` hold (`refb_ok`); `refs_*`: the reference `Ref.chainEventsS` (any source,
 passed-on skippable errors skipped) and `refa_ok` = `Ref.runOKAB` (the decidable side conditions of
-`C12_skip_any_partial` / `C08_refines_assign_aligned_partial`). -/
+`C12_skip_any_partial` / `C08_refines_assign_aligned_partial`); `fnless_*`: for chains of un-batched operators
+WITHOUT functions the direct specification `Ref.fnlessChainS` (values routed, nothing called or packed; any source) and
+`fnless_ok` = the side condition of `C08_fnless_chain_any_source` (`SelfAlone`; un-batched and fn-less by `fnlessSpec`). -/
 def handle (j : Json) : Except String Json := do
   let specs ← (← Driver.getArr j "specs").toList.mapM parseSpec
   match Build.build {} specs with
@@ -231,6 +241,13 @@ def handle (j : Json) : Except String Json := do
        ("refs_out", Json.arr (sout.map valJson).toArray),
        ("refs_err", match serr with | none => Json.null | some e => Driver.errJson e.kind),
        ("refs_cause", match serr with | none => Json.null | some e => Driver.optErrJson e.cause)]
-    return Json.mkObj (base ++ refPart ++ refS)
+    let refF : List (String × Json) :=
+      if specs.all fnlessSpec then
+        let (fout, ferr) := observe (Ref.fnlessChainS ignore ops src)
+        [("fnless_ok", toJson (ops.all selfAloneB)),
+         ("fnless_out", Json.arr (fout.map valJson).toArray),
+         ("fnless_err", match ferr with | none => Json.null | some e => Driver.errJson e.kind)]
+      else []
+    return Json.mkObj (base ++ refPart ++ refS ++ refF)
 
 end Driver.Pipe
